@@ -139,13 +139,14 @@ def param_maps(o):
 
 
 def observables(o):
-    """public model queries the statement lists: materials, temperatures, dimensions, number densities, volumes, masses,
-    coordinates.  A query that raises is recorded as such (the same query must then raise on the copy)."""
+    """public model queries the statement lists, in three groups: coordinates (oc), resolved dimensions (od), and
+    material / temperatures / area / volume / mass / number densities (om).  A query that raises is recorded as such
+    (the same query must then raise on the copy)."""
     from armi.reactor.components import Component
 
-    out = {}
+    oc, od, om = {}, {}, {}
 
-    def q(name, fn):
+    def q(out, name, fn):
         try:
             out[name] = canon(fn())
         except Exception as ex:  # noqa: BLE001
@@ -153,49 +154,57 @@ def observables(o):
 
     sl = o.spatialLocator
     if sl is not None:
-        q("localCoords", lambda: sl.getLocalCoordinates())
-        q("globalCoords", lambda: sl.getGlobalCoordinates())
+        q(oc, "localCoords", lambda: sl.getLocalCoordinates())
+        q(oc, "globalCoords", lambda: sl.getGlobalCoordinates())
     if isinstance(o, Component):
         for d in sorted(o.DIMENSION_NAMES):
-            q("dim:" + d, lambda d=d: o.getDimension(d))
-            q("cold:" + d, lambda d=d: o.getDimension(d, cold=True))
-        q("T", lambda: o.temperatureInC)
-        q("Tin", lambda: o.inputTemperatureInC)
-        q("material", lambda: type(o.material).__name__)
-        q("matDensity", lambda: o.material.density(Tc=o.temperatureInC))
-        q("area", o.getArea)
-        q("volume", o.getVolume)
-        q("mass", o.getMass)
-        q("nd", lambda: dict(o.getNumberDensities()))
-        q("mult", o.getDimension.__self__.getDimension if False else (lambda: o.getDimension("mult")))
-    elif hasattr(o, "getVolume") and o.parent is not None and not hasattr(o, "blueprints"):
+            q(od, "dim:" + d, lambda d=d: o.getDimension(d))
+            q(od, "cold:" + d, lambda d=d: o.getDimension(d, cold=True))
+        q(om, "T", lambda: o.temperatureInC)
+        q(om, "Tin", lambda: o.inputTemperatureInC)
+        q(om, "material", lambda: type(o.material).__name__)
+        q(om, "area", o.getArea)
+        q(om, "volume", o.getVolume)
+        q(om, "mass", o.getMass)
+        q(om, "nd", lambda: dict(o.getNumberDensities()))
+    elif o.parent is not None and not hasattr(o, "blueprints"):
         if hasattr(o, "getHeight"):
-            q("height", o.getHeight)
+            q(om, "height", o.getHeight)
         if hasattr(o, "getMass") and len(o):
-            q("mass", o.getMass)
-            q("volume", o.getVolume)
-            q("nd", lambda: dict(o.getNumberDensities()))
+            q(om, "mass", o.getMass)
+            q(om, "volume", o.getVolume)
+            q(om, "nd", lambda: dict(o.getNumberDensities()))
         if hasattr(o, "getLocation"):
-            q("location", o.getLocation)
+            q(oc, "location", o.getLocation)
         if hasattr(o, "getType"):
-            q("type", o.getType)
-            q("flags", lambda: str(o.p.flags))
+            q(om, "type", o.getType)
+            q(om, "flags", lambda: str(o.p.flags))
     if o.spatialGrid is not None:
         g = o.spatialGrid
-        q("cellCoords", lambda: [[list(c.indices), list(g.getCoordinates(c.indices))] for c in o if hasattr(c.spatialLocator, "indices")
-                                 and not isinstance(c.spatialLocator.indices, list)][:8])
-        q("symmetry", lambda: str(g.symmetry))
-        q("geomType", lambda: str(g.geomType))
-    return out
+        q(oc, "cellCoords", lambda: [list(g.getCoordinates(c.spatialLocator.indices)) for c in o
+                                     if type(c.spatialLocator).__name__ == "IndexLocation"][:12])
+        q(oc, "symmetry", lambda: str(g.symmetry))
+        q(oc, "geomType", lambda: str(g.geomType))
+    return oc, od, om
+
+
+def _public(g, attr):
+    """the public (normalising) property of a grid; an unset geometry type raises ValueError on both sides alike"""
+    try:
+        return str(getattr(g, attr))
+    except Exception as ex:  # noqa: BLE001
+        return "raises:" + type(ex).__name__
 
 
 def project(root, detail=False):
-    """abstract state: nodes in in-memory depth-first order, 1-based indices, root = 1"""
+    """abstract state (spec/db/Layout.tla): nodes in in-memory depth-first order, 1-based ids, root = 1.
+    Returns (nodes, details, notes): details = the un-digested values (diagnostics / naming of differences only)."""
     from armi.reactor import grids
     from armi.reactor.components import Component
 
     objs = walk(root)
     idx = {id(o): i + 1 for i, o in enumerate(objs)}
+    notes = []
     # component sort keys enter TLC as dense ranks (TLC cannot order reals); the rule (lexicographic, stable) is TLC's
     keys = {}
     for o in objs:
@@ -206,34 +215,380 @@ def project(root, detail=False):
                 keys[id(o)] = None
     r1 = {v: i + 1 for i, v in enumerate(sorted({k[0] for k in keys.values() if k}))}
     r2 = {v: i + 1 for i, v in enumerate(sorted({k[1] for k in keys.values() if k}))}
+
+    def ints(ind, where):
+        out = []
+        for x in ind:
+            f = float(x)
+            if not f.is_integer():
+                notes.append("non-integral grid index %r at %s" % (f, where))
+            out.append(int(f))
+        return out
+
     nodes, details = [], []
     for o in objs:
         sl = o.spatialLocator
         if sl is None:
             lk, loc = "N", []
         elif type(sl) is grids.MultiIndexLocation:
-            lk, loc = "M", [_triple(s.indices) for s in sl]
+            lk, loc = "M", [ints(s.indices, o.name) for s in sl]
         elif type(sl) is grids.CoordinateLocation:
-            lk, loc = "C", [_triple(sl.indices)]
+            lk, loc = "C", [[repr(float(x)) for x in sl.indices]]
         elif type(sl) is grids.IndexLocation:
-            lk, loc = "I", [_triple(sl.indices)]
+            lk, loc = "I", [ints(sl.indices, o.name)]
         else:
-            lk, loc = "?" + type(sl).__name__, []
+            lk, loc = "N", []
+            notes.append("unknown locator class %s at %s" % (type(sl).__name__, o.name))
         g = getattr(sl, "grid", None) if sl is not None else None
         lg = 0 if g is None else idx.get(id(g.armiObject), -1)
-        gk, gfull = grid_key(o.spatialGrid)
+        if o.spatialGrid is None:
+            grid, gfull = {"raw": "", "obs": "", "ax": False}, None
+        else:
+            raw, gfull = grid_key(o.spatialGrid)
+            obsfull = list(gfull[:-2]) + [_public(o.spatialGrid, "geomType"), _public(o.spatialGrid, "symmetry")]
+            grid = {"raw": raw, "obs": "%s#%s" % (gfull[0], digest(obsfull)), "ax": bool(o.spatialGrid.isAxialOnly)}
         iscomp = isinstance(o, Component)
         k = keys.get(id(o))
         dims, comp, rest = param_maps(o)
-        obs = observables(o)
+        oc, od, om = observables(o)
         n = {
             "ty": type(o).__name__, "nm": str(o.name), "sn": int(o.p.serialNum), "kids": [idx[id(c)] for c in o],
-            "lk": lk, "loc": loc, "lg": lg, "ax": bool(g is not None and g.isAxialOnly), "grid": gk,
+            "lk": lk, "loc": loc, "lg": lg, "grid": grid,
             "cmp": iscomp, "ck": [r1[k[0]], r2[k[1]]] if k else [0, 0],
-            "mat": type(o.material).__name__ if iscomp else "", "tmp": [num(o.inputTemperatureInC), num(o.temperatureInC)] if iscomp else [],
-            "pd": digest(dims), "pn": digest(comp), "pp": digest(rest), "ov": digest(obs),
+            "mat": type(o.material).__name__ if iscomp else "",
+            "tmp": [repr(float(o.inputTemperatureInC)), repr(float(o.temperatureInC))] if iscomp else [],
+            "pd": digest(dims), "pn": digest(comp), "pp": digest(rest), "oc": digest(oc), "od": digest(od), "om": digest(om),
         }
         nodes.append(n)
-        if detail:
-            details.append({"pd": dims, "pn": comp, "pp": rest, "ov": obs, "grid": gfull})
-    return (nodes, details) if detail else nodes
+        details.append({"pd": dims, "pn": comp, "pp": rest, "oc": oc, "od": od, "om": om, "grid": gfull})
+    return nodes, details, notes
+
+
+def project_file(group):
+    """layout/* of one time-node group exactly as h5py shows it (reals as repr strings; see Layout.tla FileObs)."""
+    lay = group["layout"]
+
+    def dec(a):
+        return [x.decode() if isinstance(x, bytes) else str(x) for x in a]
+
+    def c(v):
+        import numpy as np
+
+        if v is None or isinstance(v, str):
+            return v
+        if isinstance(v, (list, tuple, np.ndarray)):
+            return [c(x) for x in v]
+        return repr(float(v))
+
+    gg = lay["grids"]
+    gtypes = dec(gg["type"][:])
+    graw = []
+    for i, ty in enumerate(gtypes):
+        sub = gg[str(i)]
+        bounds = [sub["bounds_%d" % k][:].tolist() if "bounds_%d" % k in sub else None for k in range(3)]
+        full = [ty, c(sub["unitSteps"][:].tolist()), c(bounds), c(sub["unitStepLimits"][:].tolist()),
+                c(sub["offset"][:].tolist()) if sub.attrs["offset"] else None,
+                sub["geomType"].asstr()[()], sub["symmetry"].asstr()[()]]
+        graw.append("%s#%s" % (ty, digest(full)))
+    ints = lambda a: [int(x) for x in a]  # noqa: E731
+    return {
+        "type": dec(lay["type"][:]), "name": dec(lay["name"][:]), "serialNum": ints(lay["serialNum"][:]),
+        "indexInData": ints(lay["indexInData"][:]), "numChildren": ints(lay["numChildren"][:]),
+        "locationType": dec(lay["locationType"][:]),
+        "location": [[repr(float(x)) for x in row] for row in lay["location"][:].tolist()],
+        "gridIndex": [str(int(x)) for x in lay["gridIndex"][:]],
+        "grids": graw,
+        "material": dec(lay["material"][:]),
+        "temperatures": [[repr(float(x)) for x in row] for row in lay["temperatures"][:].tolist()],
+    }
+
+
+# ------------------------------------------------------------------------------------------------------------
+# real histories: reactors built by armi from generated blueprints, mutated through public calls, written, loaded
+# ------------------------------------------------------------------------------------------------------------
+# parameters the loader legitimately re-derives or that steer geometry/time (DESIGN C04 modelling notes); never assigned
+# by the driver's AssignParam (they are still COMPARED)
+NOT_ASSIGNED = {
+    "serialNum", "assemNum", "type", "flags", "nuclides", "numberDensities", "detailedNDens", "volume", "area", "mult",
+    "temperatureInC", "height", "heightBOL", "z", "zbottom", "ztop", "axMesh", "orientation", "xsType", "envGroup",
+    "xsTypeNum", "envGroupNum", "kgHM", "kgFis", "puFrac", "maxAssemNum", "cycle", "timeNode", "molesHmBOL", "massHmBOL",
+    "nHMAtBOL", "initialB10ComponentVol", "topIndex", "mergeWith", "customIsotopicsName", "theoreticalDensityFrac",
+    "displacementX", "displacementY",
+}
+# parameters without a default that AssignParam may set on SOME objects of a class (fixed list: stable finding keys)
+NODEFAULT_OK = ("zrFrac", "buRate")
+
+
+def settle(r):
+    """bring the live reactor to a self-consistent state before it is observed and written (DESIGN C04): lazy volumes
+    computed, block mass parameters as processLoading would compute them"""
+    from armi.reactor.components import Component
+
+    for o in walk(r):
+        if isinstance(o, Component):
+            o.getVolume()
+    if r.core is not None and len(r.core):
+        r.core.setBlockMassParams()
+
+
+class _cwd:
+    def __init__(self, d):
+        self.d = d
+
+    def __enter__(self):
+        self.old = os.getcwd()
+        os.chdir(self.d)
+
+    def __exit__(self, *a):
+        os.chdir(self.old)
+
+
+class History:
+    """one real history; events are appended to self.ev in the trace format of DbState_trace.tla"""
+
+    def __init__(self, hid, family, variant, rng, workdir):
+        from harness import gen_reactor
+
+        self.id, self.family, self.variant, self.rng = hid, family, variant, rng
+        self.wd = os.path.join(workdir, hid)
+        os.makedirs(self.wd, exist_ok=True)
+        self.w = gen_reactor.build(self.wd, family, variant, extra_settings={"trackAssems": True})
+        self.r = self.w.r
+        self.ev, self.how = [], []
+        self.dbs = {}       # file tag -> Database (open for writing)
+        self.slots = {}     # slot -> (file tag, cycle, node)
+        self.loaded = {}    # handle -> reactor
+        self.details = {}   # ("live", event index) / ("load", h) / ... -> (nodes, details) for naming differences
+        self.notes = []
+
+    # -- mutations (each returns a short description or None if not applicable) ---------------------------------
+    def mutate(self, n):
+        kinds = ["AssignParam"] * 4 + ["SetComposition", "SetTemperature", "Swap", "Rotate", "Discharge", "AssignNoDefault"]
+        if self.family == "hex_third":
+            kinds.append("GrowToFull")
+        for _ in range(n):
+            k = self.rng.choice(kinds)
+            d = getattr(self, "m_" + k)()
+            if d:
+                self.how.append(d)
+
+    def _objs(self):
+        return walk(self.r)
+
+    def m_AssignParam(self):
+        import numpy as np
+        from armi.reactor import parameters
+
+        rng = self.rng
+        o = rng.choice(self._objs())
+        dims = set(getattr(o, "DIMENSION_NAMES", ()))
+        cands = []
+        for pd in o.p.paramDefs:
+            if not pd.saveToDB or pd.name in NOT_ASSIGNED or pd.name in dims or pd.serializer is not None:
+                continue
+            v = o.p.get(pd.name, pd.default)
+            if v is parameters.NoDefault:
+                continue
+            # (a parameter whose value is None may expect an array / dict / string: only numbers are replaced by numbers)
+            if isinstance(v, (int, float, np.integer, np.floating)) and not isinstance(v, (bool, np.bool_)):
+                cands.append((pd.name, v))
+            elif isinstance(v, np.ndarray) and v.dtype.kind == "f" and v.ndim == 1 and len(v):
+                cands.append((pd.name, v))
+        if not cands:
+            return None
+        name, v = rng.choice(sorted(cands, key=lambda c: c[0]))
+        if isinstance(v, np.ndarray):
+            new = np.array([round(rng.uniform(0.0, 9.0), 6) for _ in v])
+        elif isinstance(v, (int, np.integer)):
+            new = int(v) + rng.randrange(1, 5)
+        else:
+            new = round(rng.uniform(0.001, 900.0), 6)
+        try:
+            o.p[name] = new
+        except Exception as ex:  # noqa: BLE001  a parameter that refuses the value is simply not mutated
+            return "AssignParam %s.%s refused (%s)" % (type(o).__name__, name, type(ex).__name__)
+        return "AssignParam %s.%s" % (type(o).__name__, name)
+
+    def m_AssignNoDefault(self):
+        from armi.reactor.components import Component
+
+        comps = [o for o in self._objs() if isinstance(o, Component)]
+        o = self.rng.choice(comps)
+        name = self.rng.choice(NODEFAULT_OK)
+        o.p[name] = round(self.rng.uniform(0.01, 0.9), 6)
+        return "AssignParam %s.%s (no default)" % (type(o).__name__, name)
+
+    def m_SetComposition(self):
+        from armi.reactor.components import Component
+
+        comps = [o for o in self._objs() if isinstance(o, Component) and len(o.getNumberDensities())]
+        if not comps:
+            return None
+        c = self.rng.choice(comps)
+        nd = c.getNumberDensities()
+        nuc = self.rng.choice(sorted(nd))
+        c.setNumberDensity(nuc, nd[nuc] * self.rng.choice((0.5, 0.9, 1.25)))
+        return "setNumberDensity %s %s" % (c.name, nuc)
+
+    def m_SetTemperature(self):
+        from armi.reactor.components import Component
+
+        comps = [o for o in self._objs() if isinstance(o, Component) and type(o.material).__name__ in ("HT9", "UZr")]
+        if not comps:
+            return None
+        c = self.rng.choice(comps)
+        c.setTemperature(round(self.rng.uniform(300.0, 650.0), 3))
+        return "setTemperature %s" % c.name
+
+    def m_Swap(self):
+        from armi.physics.fuelCycle.fuelHandlers import FuelHandler
+        from harness import gen_core
+
+        a = list(self.r.core)
+        if len(a) < 2:
+            return None
+        a1, a2 = self.rng.sample(a, 2)
+        FuelHandler(gen_core.OperatorStub(self.r, self.w.cs)).swapAssemblies(a1, a2)
+        return "swapAssemblies"
+
+    def m_Rotate(self):
+        import math
+
+        a = [x for x in self.r.core if type(x).__name__ == "HexAssembly"]
+        if not a:
+            return None
+        self.rng.choice(a).rotate(math.radians(60 * self.rng.randrange(1, 6)))
+        return "rotate"
+
+    def m_Discharge(self):
+        a = list(self.r.core)
+        if len(a) < 3:
+            return None
+        self.r.core.removeAssembly(self.rng.choice(a[1:]))
+        return "removeAssembly(discharge)"
+
+    def m_GrowToFull(self):
+        from armi.reactor.converters import geometryConverters
+
+        if "third" not in str(self.r.core.symmetry):
+            return None
+        geometryConverters.ThirdCoreHexToFullCoreChanger(self.w.cs).convert(self.r)
+        return "growToFullCore"
+
+    # -- observed calls ---------------------------------------------------------------------------------------
+    def _proj(self, r, tag):
+        nodes, det, notes = project(r)
+        self.details[tag] = (nodes, det)
+        for n in notes:
+            self.notes.append("%s: %s" % (tag, n))
+        return nodes
+
+    def state(self):
+        settle(self.r)
+        nodes = self._proj(self.r, "live@%d" % (len(self.ev) + 1))
+        self.ev.append({"a": {"n": "State", "how": self.how[-12:]}, "post": {"live": nodes}})
+        self.how = []
+        return nodes
+
+    def _db(self, tag):
+        from armi.bookkeeping.db.database import Database
+
+        if tag not in self.dbs:
+            db = Database("%s-%s.h5" % (self.id, tag), "w")
+            with _cwd(self.wd):
+                db.open()
+            self.dbs[tag] = db
+        return self.dbs[tag]
+
+    def _write(self, r, slot, tag, cycle, node, call, extra):
+        import h5py  # noqa: F401
+        from armi.bookkeeping.db.database import getH5GroupName
+
+        db = self._db(tag)
+        oc, on = r.p.cycle, r.p.timeNode
+        r.p.cycle, r.p.timeNode = cycle, node
+        a = dict({"n": call, "s": slot}, **extra)
+        try:
+            db.writeToDB(r)
+        except (ValueError, NotImplementedError) as ex:
+            self.ev.append({"a": dict(a, n="WriteRefused"), "post": {"exception": type(ex).__name__}})
+            return False
+        finally:
+            r.p.cycle, r.p.timeNode = oc, on
+        db.h5db.flush()
+        self.slots[slot] = (tag, cycle, node)
+        self.ev.append({"a": a, "post": {"file": project_file(db.h5db[getH5GroupName(cycle, node)])}})
+        return True
+
+    def write(self, slot):
+        before = self.details.get("live@%d" % len(self.ev), (None,))[0]
+        ok = self._write(self.r, slot, "a", slot - 1, 0, "Write", {})
+        # frame condition "a write leaves the reactor as it was": equality of two projections of the same object
+        after, _, _ = project(self.r)
+        if before is not None and after != before:
+            self.notes.append("write-changed-original")
+        return ok
+
+    def resave(self, h, slot):
+        return self._write(self.loaded[h], slot, "b", slot - 1, 0, "Resave", {"h": h})
+
+    def load(self, slot, h):
+        from armi.bookkeeping.db.database import Database
+        from harness import gen_reactor
+
+        tag, cycle, node = self.slots[slot]
+        self.close_db(tag)
+        db = Database(self.dbs[tag]._fullPath, "r")
+        db.open()
+        try:
+            r2 = db.load(cycle, node, cs=self.w.cs, bp=gen_reactor.fresh_blueprints(self.w))
+        finally:
+            db.close()
+        self.loaded[h] = r2
+        nodes = self._proj(r2, "load@%d" % (len(self.ev) + 1))
+        self.ev.append({"a": {"n": "Load", "s": slot, "h": h}, "post": {"state": nodes}})
+
+    def close_db(self, tag):
+        """finish a database file (armi moves it from its fast path to the given path on close)"""
+        db = self.dbs.get(tag)
+        if db is not None and db.isOpen():
+            with _cwd(self.wd):
+                db.close(True)
+
+    def close(self):
+        import shutil
+
+        for tag in self.dbs:
+            try:
+                self.close_db(tag)
+            except Exception:  # noqa: BLE001
+                pass
+        shutil.rmtree(self.wd, ignore_errors=True)
+
+    def trace(self):
+        return {"id": self.id, "ev": self.ev}
+
+
+def play(hid, family, variant, seed, workdir, nmut=6, two_snapshots=True):
+    """the standard history:  State Write(1) [mutate State Write(2)] | Load(1,1) Load(1,2) [Load(2,3)] Resave(1,3) Load(3,4)"""
+    rng = random.Random(seed)
+    h = History(hid, family, variant, rng, workdir)
+    try:
+        h.mutate(rng.randrange(0, nmut + 1))
+        h.state()
+        ok1 = h.write(1)
+        ok2 = False
+        if two_snapshots:
+            h.mutate(rng.randrange(1, nmut + 1))
+            h.state()
+            ok2 = h.write(2)
+        if ok1:
+            h.load(1, 1)
+            h.load(1, 2)
+        if ok2:
+            h.load(2, 3)
+        if ok1 and h.resave(1, 3):
+            h.load(3, 4)
+    finally:
+        h.close()
+    return h
